@@ -42,7 +42,7 @@ def base():
 
 @st.composite
 def strategy(draw, tier="quick"):
-    mode = draw(st.sampled_from(["exact", "exact", "general", "periodic-exact", "periodic-tric"]))
+    mode = draw(st.sampled_from(["exact", "exact", "general", "periodic-exact", "periodic-tric", "periodic-near-ortho"]))
     case = {"mode": mode, "nf": draw(st.integers(1, 2)), "seed": draw(st.integers(0, 2 ** 31)),
             "rot": draw(st.integers(0, 23)), "tpow": draw(st.sampled_from([0, 0, 3, 6, 9])),
             "tmag": draw(st.sampled_from([0.0, 1.0, 60.0, 500.0])),
@@ -115,6 +115,9 @@ def run_case(case):
         else:
             if mode == "periodic-exact":
                 cells = [{"kind": "ortho", "L": [6.0, 7.5, 8.25], "A": [90.0, 90.0, 90.0]}] * case["nf"]
+            elif mode == "periodic-near-ortho":
+                # almost rectangular (angles 0.004 - 0.005 degrees off 90, off-diagonal components 4e-4 - 7e-4 nm): a triclinic cell all the same
+                cells = [{"kind": "near-ortho", "L": [6.0, 7.5, 8.25], "A": [90.004, 89.995, 90.0045]}] * case["nf"]
             else:
                 cells = [{"kind": "tric", "L": [6.0, 7.5, 8.25], "A": [75.0, 85.0, 100.0]}] * case["nf"]
             Hs = gen.cell_matrices(cells)
